@@ -111,7 +111,7 @@ impl<'s> ParallelVisitorBuilder<'s> for VBuilder {
 
 impl ParallelVisitor for Visitor {
     fn visit(&mut self, entry: Result<DirEntry, Error>) -> WalkState {
-        let mut sh = self.shared.lock().unwrap();
+        let mut sh = self.shared.lock().unwrap_or_else(|e| e.into_inner());
         let id = match entry {
             Ok(d) => match node_id(d.path()) { Some(i) => i, None => { sh.errors += 1; return WalkState::Continue; } },
             Err(_) => { sh.errors += 1; return WalkState::Continue; }
@@ -256,9 +256,17 @@ impl Sched {
         }
     }
 
+    /// after a detected deadlock / overrun the worker threads are taken down at their next yield
+    /// point (unwinding through the walker; `WalkParallel::visit` then panics in the walk thread,
+    /// where it is caught), so that no spinning thread is left behind
+    fn bail() -> ! {
+        std::panic::resume_unwind(Box::new("c07 scheduler abort"))
+    }
+
     fn yield_point(&self, w: usize, kind: u32) {
-        let mut inner = self.m.lock().unwrap();
-        if inner.abort || Some(std::thread::current().id()) == inner.walk_thread || w >= inner.n { return; }
+        let mut inner = self.m.lock().unwrap_or_else(|e| e.into_inner());
+        if Some(std::thread::current().id()) == inner.walk_thread || w >= inner.n { return; }
+        if inner.abort { drop(inner); Self::bail(); }
         Self::close_slot(&mut inner, w, kind);
         if kind == hook::EXIT {
             let snap = hook::snapshot();
@@ -272,18 +280,19 @@ impl Sched {
         inner.parked[w] = Some(kind);
         self.pick_next(&mut inner);
         while inner.granted != Some(w) && !inner.abort {
-            inner = self.cv.wait(inner).unwrap();
+            inner = self.cv.wait(inner).unwrap_or_else(|e| e.into_inner());
         }
+        if inner.abort { drop(inner); Self::bail(); }
         if inner.granted == Some(w) { inner.granted = None; }
     }
 
     fn received(&self, w: usize, r: &hook::Received) {
-        let mut inner = self.m.lock().unwrap();
+        let mut inner = self.m.lock().unwrap_or_else(|e| e.into_inner());
         if let Some(s) = inner.open.as_mut() { if s.w == w { s.recv = Some(r.clone()); } }
     }
 
     fn visited(&self, w: usize, id: usize) {
-        let mut inner = self.m.lock().unwrap();
+        let mut inner = self.m.lock().unwrap_or_else(|e| e.into_inner());
         if let Some(s) = inner.open.as_mut() { if s.w == w { s.visit = Some(id); } }
     }
 }
@@ -362,7 +371,7 @@ fn run_scheduled(v: &Val) -> Val {
         let visits = visits.clone();
         let resp = Arc::new(resp.clone());
         std::thread::spawn(move || {
-            sched.m.lock().unwrap().walk_thread = Some(std::thread::current().id());
+            sched.m.lock().unwrap_or_else(|e| e.into_inner()).walk_thread = Some(std::thread::current().id());
             let walker = builder_for(&roots, n_cfg).build_parallel();
             let mut b = VBuilder { next: 0, resp, quit_at, shared: visits, sched: Some(sched.clone()) };
             let r = std::panic::catch_unwind(std::panic::AssertUnwindSafe(|| walker.visit(&mut b)));
@@ -370,27 +379,26 @@ fn run_scheduled(v: &Val) -> Val {
         });
     }
     let mut status;
-    match rx.recv_timeout(Duration::from_secs(30)) {
-        Ok(true) => { status = sched.m.lock().unwrap().status; }
+    match rx.recv_timeout(Duration::from_secs(20)) {
+        Ok(true) => { status = 0; }
         Ok(false) => { status = 5; }
         Err(_) => {
-            // not returned: let everything run freely and give it a moment
-            { let mut i = sched.m.lock().unwrap(); i.abort = true; }
+            // not returned (a worker thread died or hangs outside the yield points): take the others down
+            { let mut i = sched.m.lock().unwrap_or_else(|e| e.into_inner()); i.abort = true; }
             sched.cv.notify_all();
             status = 4;
             let _ = rx.recv_timeout(Duration::from_secs(2));
         }
     }
     {
-        // a detected deadlock / overrun lets the threads run freely; a real livelock never returns
-        let i = sched.m.lock().unwrap();
+        let i = sched.m.lock().unwrap_or_else(|e| e.into_inner());
         if i.status != 0 { status = i.status; }
     }
     hook::set_yield(None);
     hook::set_received(None);
     hook::clear_shared();
-    let inner = sched.m.lock().unwrap();
-    let vis = visits.lock().unwrap();
+    let inner = sched.m.lock().unwrap_or_else(|e| e.into_inner());
+    let vis = visits.lock().unwrap_or_else(|e| e.into_inner());
     for &(_, id, a) in &vis.calls {
         if id >= resp.len() { resp.resize(id + 1, 0); }
         resp[id] = a;
